@@ -5,6 +5,7 @@ import KitProofs.Lemmas.LocksContext
 import KitProofs.Lemmas.LocksOuterCancel
 import KitProofs.Lemmas.LocksOuterCancelSlot
 import KitModel.Generated.C13
+import KitProofs.Lemmas.LocksAcceptor
 /-!
 Property C13 — locks.  Every theorem quantifies over all reachable states of the primitive's
 transition system: any number `n` of callers, any interleaving of their atomic steps, any moment
@@ -495,6 +496,110 @@ example : ∃ s, Reach OuterCancel.lts (OuterCancel.init 2 2) s ∧ s.closed = f
       .sys 0 0, .tau 0 1, .ret 0 0, .call 1 .lock, .tau 1 1, .sys 0 1, .sys 0 0, .sys 0 0,
       .env .tick, .env .tick, .sys 2 0, .sys 2 0, .sys 0 0, .tau 1 1]) rfl,
     by decide, by decide, by decide, by decide⟩
+
+/-! ## Soundness of the acceptor the driver runs (trace inclusion is meaningful)
+
+`Acceptor.run S fuel s0 tr` is what `kitdrv C13` computes for a trace (`Session.start`, then
+`Session.feed` per line; the driver only parses and prints). -/
+
+/-- The driver's per-line folding is `Acceptor.run`, for each primitive. -/
+theorem session_is_run_fmutex (n : Nat) (tr : List FifoMutex.L) :
+    (tr.map Acceptor.Event.fmutex).foldl (fun s e => (s.feed e).getD s) (Acceptor.Session.start (.fmutex n)) =
+      .fmutex (Acceptor.run FifoMutex.sim Acceptor.fuel (FifoMutex.init n) tr) := by
+  simp only [Acceptor.run, Acceptor.Session.start]
+  generalize some (FifoMutex.sim.start Acceptor.fuel (FifoMutex.init n)) = st
+  induction tr generalizing st with
+  | nil => rfl
+  | cons a tr ih => simpa [Acceptor.Session.feed] using ih _
+
+theorem session_is_run_fmap (n k : Nat) (tr : List FifoMap.L) :
+    (tr.map Acceptor.Event.fmap).foldl (fun s e => (s.feed e).getD s) (Acceptor.Session.start (.fmap n k)) =
+      .fmap (Acceptor.run FifoMap.sim Acceptor.fuel (FifoMap.init n k) tr) := by
+  simp only [Acceptor.run, Acceptor.Session.start]
+  generalize some (FifoMap.sim.start Acceptor.fuel (FifoMap.init n k)) = st
+  induction tr generalizing st with
+  | nil => rfl
+  | cons a tr ih => simpa [Acceptor.Session.feed] using ih _
+
+theorem session_is_run_cmap (rc : Bool) (n k : Nat) (tr : List CMap.L) :
+    (tr.map Acceptor.Event.cmap).foldl (fun s e => (s.feed e).getD s) (Acceptor.Session.start (.cmap rc n k)) =
+      .cmap (Acceptor.run CMap.sim Acceptor.fuel (CMap.init rc n k) tr) := by
+  simp only [Acceptor.run, Acceptor.Session.start]
+  generalize some (CMap.sim.start Acceptor.fuel (CMap.init rc n k)) = st
+  induction tr generalizing st with
+  | nil => rfl
+  | cons a tr ih => simpa [Acceptor.Session.feed] using ih _
+
+theorem session_is_run_ctx (n : Nat) (tr : List Context.L) :
+    (tr.map Acceptor.Event.ctx).foldl (fun s e => (s.feed e).getD s) (Acceptor.Session.start (.ctx n)) =
+      .ctx (Acceptor.run Context.sim Acceptor.fuel (Context.init n) tr) := by
+  simp only [Acceptor.run, Acceptor.Session.start]
+  generalize some (Context.sim.start Acceptor.fuel (Context.init n)) = st
+  induction tr generalizing st with
+  | nil => rfl
+  | cons a tr ih => simpa [Acceptor.Session.feed] using ih _
+
+theorem session_is_run_outer (n g : Nat) (tr : List OuterCancel.L) :
+    (tr.map Acceptor.Event.outer).foldl (fun s e => (s.feed e).getD s) (Acceptor.Session.start (.outer n g)) =
+      .outer (Acceptor.run OuterCancel.sim Acceptor.fuel (OuterCancel.init n g) tr) := by
+  simp only [Acceptor.run, Acceptor.Session.start]
+  generalize some (OuterCancel.sim.start Acceptor.fuel (OuterCancel.init n g)) = st
+  induction tr generalizing st with
+  | nil => rfl
+  | cons a tr ih => simpa [Acceptor.Session.feed] using ih _
+
+/-- Accepted trace ⇒ run exists, for every primitive: if the acceptor keeps a set after a non-empty
+trace, there is a run of that primitive's LTS from its initial state whose observable labels
+(`call`/`ret`/`probe`/`env`) are exactly the trace; every kept state is reachable, hence satisfies
+every invariant proved above. -/
+theorem accepted_trace_has_run {σ α : Type} [BEq σ] (S : Sim σ α) (s0 : σ) (tr : List α) (a : α)
+    (set : List σ) (h : Acceptor.run S Acceptor.fuel s0 (tr ++ [a]) = some set) :
+    (∃ (r : List α) (s : σ), S.M.run s0 r = some s ∧ S.obsOf r = tr ++ [a]) ∧
+    ∀ x ∈ set, Reach S.M s0 x ∧ S.Witness s0 (tr ++ [a]) x := by
+  refine ⟨Acceptor.accepted_has_run S _ s0 tr a set h, ?_⟩
+  intro x hx
+  have w := Acceptor.run_sound S _ s0 _ set h x hx
+  obtain ⟨r, hr, ho⟩ := w
+  exact ⟨Reach.of_run Reach.init hr, ⟨r, hr, ho⟩⟩
+
+theorem fifomutex_accepted_trace_has_run (n : Nat) (tr : List FifoMutex.L) (a : FifoMutex.L)
+    (set : List FifoMutex.State)
+    (h : Acceptor.run FifoMutex.sim Acceptor.fuel (FifoMutex.init n) (tr ++ [a]) = some set) :
+    ∃ r s, FifoMutex.lts.run (FifoMutex.init n) r = some s ∧ FifoMutex.sim.obsOf r = tr ++ [a] :=
+  (accepted_trace_has_run FifoMutex.sim _ tr a set h).1
+
+theorem fifomap_accepted_trace_has_run (n k : Nat) (tr : List FifoMap.L) (a : FifoMap.L)
+    (set : List FifoMap.State)
+    (h : Acceptor.run FifoMap.sim Acceptor.fuel (FifoMap.init n k) (tr ++ [a]) = some set) :
+    ∃ r s, FifoMap.lts.run (FifoMap.init n k) r = some s ∧ FifoMap.sim.obsOf r = tr ++ [a] :=
+  (accepted_trace_has_run FifoMap.sim _ tr a set h).1
+
+theorem cmap_accepted_trace_has_run (rc : Bool) (n k : Nat) (tr : List CMap.L) (a : CMap.L)
+    (set : List CMap.State)
+    (h : Acceptor.run CMap.sim Acceptor.fuel (CMap.init rc n k) (tr ++ [a]) = some set) :
+    ∃ r s, CMap.lts.run (CMap.init rc n k) r = some s ∧ CMap.sim.obsOf r = tr ++ [a] :=
+  (accepted_trace_has_run CMap.sim _ tr a set h).1
+
+theorem context_accepted_trace_has_run (n : Nat) (tr : List Context.L) (a : Context.L)
+    (set : List Context.State)
+    (h : Acceptor.run Context.sim Acceptor.fuel (Context.init n) (tr ++ [a]) = some set) :
+    ∃ r s, Context.lts.run (Context.init n) r = some s ∧ Context.sim.obsOf r = tr ++ [a] :=
+  (accepted_trace_has_run Context.sim _ tr a set h).1
+
+theorem outer_accepted_trace_has_run (n g : Nat) (tr : List OuterCancel.L) (a : OuterCancel.L)
+    (set : List OuterCancel.State)
+    (h : Acceptor.run OuterCancel.sim Acceptor.fuel (OuterCancel.init n g) (tr ++ [a]) = some set) :
+    ∃ r s, OuterCancel.lts.run (OuterCancel.init n g) r = some s ∧ OuterCancel.sim.obsOf r = tr ++ [a] :=
+  (accepted_trace_has_run OuterCancel.sim _ tr a set h).1
+
+/-- Example of what this buys: a state the acceptor keeps for an accepted fifo-map trace satisfies
+mutual exclusion, because it is reachable. -/
+theorem fifomap_accepted_states_are_safe (n k : Nat) (tr : List FifoMap.L) (a : FifoMap.L)
+    (set : List FifoMap.State)
+    (h : Acceptor.run FifoMap.sim Acceptor.fuel (FifoMap.init n k) (tr ++ [a]) = some set)
+    (x : FifoMap.State) (hx : x ∈ set) (key : FifoMap.Key) (t1 t2 : Tid)
+    (h1 : (x.pcs t1).ownsKey key = true) (h2 : (x.pcs t2).ownsKey key = true) : t1 = t2 :=
+  fifomap_mutual_exclusion n k x ((accepted_trace_has_run FifoMap.sim _ tr a set h).2 x hx).1 key t1 t2 h1 h2
 
 /-! ## T1 — facts regenerated from the source on every run (`KitModel/Generated/C13.lean`)
 
